@@ -24,7 +24,8 @@ META = {
         'the importer. R5 ranks written and ranks used to find forms again come from the same enumeration, and queries '
         'whose order is part of the API order by the rank column. R6 optional booleans use one default everywhere. '
         'R7 every consumer of a query row unpacks as many fields as the SELECT list has, in the prescribed order. '
-        'R8 declared column types have converters/adapters and PARSE_DECLTYPES is on.'),
+        'R8 declared column types have converters/adapters and PARSE_DECLTYPES is on. R10 every row collection given to '
+        'executemany inside a loop is created inside that loop iteration (no re-insertion of earlier batches).'),
     'decides': ['statement/parameter arity and order', 'column <-> model key binding', 'owner pairing', 'optional keys',
                 'rank agreement', 'default agreement', 'reader arity/order', 'type converters'],
     'not_decided': ['equality of stored and reported values', '_batch slicing arithmetic', 'Unicode handling (delegated to sqlite3)'],
@@ -761,6 +762,52 @@ def r9_no_shared_records(ctx, res):
     report(ctx, res, {'_add'}, 'add')
 
 
+def r10_exactly_once(ctx, res):
+    """every row collection handed to executemany() inside a loop is created inside that same loop iteration: an accumulator
+    that outlives the iteration hands the rows of all earlier batches to the next executemany again (duplicate rows in
+    tables without a uniqueness constraint).  Decided on the effect summaries: the `new` effect of the collection must
+    lie in every loop that encloses the executemany call."""
+    import re as _re
+    from ..speccheck import view, short
+    from ..inline import Opaque
+    add = ctx.repo.mod('_add')
+    n = 0
+    for f in add.funcs.values():
+        if '.executemany(' not in norm(f.node):
+            continue
+        try:
+            v = view(ctx, '_add', f.qualname)
+        except AnalysisError:
+            continue
+        news = {}
+        for k, t, g, c, e in v.rows:
+            if k == 'new':
+                m = _re.match(r'#(\d+)', t)
+                if m:
+                    news.setdefault(m.group(1), []).append(c)
+        for k, t, g, c, e in v.rows:
+            if k not in ('call', 'eval') or '.executemany(' not in t:
+                continue
+            m = _re.search(r'\.executemany\((.*)\)$', t)
+            loops = tuple(x for x in c if x.startswith(('for ', 'while ')))
+            cells = set(_re.findall(r'#(\d+)', t[t.index('.executemany('):]))
+            key = f'once:{f.qualname}:{_re.sub(r"#\d+", "#", t)[:70]}'
+            n += 1
+            res.inst(key, v.loc(e), f'{len(cells)} collection(s), in loops {list(loops)}')
+            for cell in sorted(cells):
+                for nc in news.get(cell, [()]):
+                    nl = tuple(x for x in nc if x.startswith(('for ', 'while ')))
+                    cleared = any(k2 in ('call', 'eval') and t2 == f'#{cell}.clear()'
+                                  and tuple(x for x in c2 if x.startswith(('for ', 'while ')))[:len(loops)] == loops
+                                  for k2, t2, g2, c2, e2 in v.rows)
+                    if nl[:len(loops)] != loops and not cleared:
+                        res.find(key, v.loc(e), f'{f.qualname}: the rows given to executemany in {list(loops) or "the function body"} are collected in a '
+                                                f'list created in {list(nl) or "the function body"}, outside that loop: every iteration inserts '
+                                                f'the rows of all earlier iterations again')
+    if n < 20:
+        raise AnalysisError(f'only {n} executemany call effects found in wn/_add.py')
+
+
 RULES = [
     ('C01-R1', r1_compile_arity, 150),
     ('C01-R2', r2_bindings, 200),
@@ -771,4 +818,5 @@ RULES = [
     ('C01-R7', r7_readers, 40),
     ('C01-R8', r8_converters, 8),
     ('C01-R9', r9_no_shared_records, 2),
+    ('C01-R10', r10_exactly_once, 20),
 ]
